@@ -24,10 +24,7 @@ AUDITED: dict[str, tuple[set[str], str]] = {
         {"read_ops"}, "op numbering of the decompile CLI: one document per process"),
 }
 # loops in which a memo USE follows graph mutations without a CLR inside the same iteration, accepted on the pinned tree
-MEMO_LOOP_EXCEPTIONS = {
-    "SsbGraphMinimizer.build_and_group_switch_cases": "clears at the end of each switch iteration and again on entry of build_loops/remove_label_markers; "
-                                                      "no input is known on which a stale entry is read",
-}
+MEMO_LOOP_EXCEPTIONS: dict[str, str] = {}
 
 CLEAR = "find_first_common_next_vertex_in_edges__clear_cache"
 USE = "find_first_common_next_vertex_in_edges"
